@@ -32,20 +32,15 @@ def main(pid, tier, seed, replay):
         problems.append(("proof", "forbidden vernacular in the development: " + "; ".join(hits[:5]),
                          {"broken": "forbidden vernacular", "hits": hits}))
 
-    # 2. Coq build (facts regenerated from /repo first)
-    ok, log, failing = V.build_coq()
+    # 2. Coq build of this property's closure (property file, check function and everything they import)
+    targets = cfg.get("coq_targets") or [cfg["propfile"][:-2] + ".vo", "Check/%s.vo" % pid]
+    ok, log, failing = V.build_coq(targets)
     relevant_fail = []
     if not ok:
-        deps = cfg.get("coq_deps")
-        for f, line in failing:
-            if deps is None or any(f.startswith(d) for d in deps):
-                relevant_fail.append("%s:%s" % (f, line))
-        if relevant_fail or not failing:
-            tail = "\n".join(log.strip().splitlines()[-25:])
-            problems.append(("proof", "Coq build failed at " + (", ".join(relevant_fail) or "?"),
-                             {"broken": "coq build", "files": relevant_fail, "log_tail": tail}))
-        else:
-            notes.append("coq build failed only in files outside this property's closure: %s" % failing)
+        relevant_fail = ["%s:%s" % (f, line) for f, line in failing] or ["?"]
+        tail = "\n".join(log.strip().splitlines()[-25:])
+        problems.append(("proof", "Coq build failed at " + ", ".join(relevant_fail),
+                         {"broken": "coq build", "files": relevant_fail, "log_tail": tail}))
 
     # 3. theorems + assumptions
     obligations, discharged, assumptions = 0, 0, {}
